@@ -1,4 +1,7 @@
 #!/bin/sh
 # usage: tools/recheck_all.sh [jobs] — re-run every seed against the current checks (appends to each verify.log); summary via tools/seed_table.py
+# Seeds are ordered by round (c01-1, c02-1, … c54-1, c01-2, …) so that concurrent jobs belong to DIFFERENT properties: two scratch runs of the
+# same property regenerate the same Gen/Cxx.lean and race in the lake build (seen as theorems=0/N in the log).
 J=${1:-3}
-ls -d /verif/seeded/c*-* | xargs -n1 basename | xargs -P $J -I{} sh -c 'P=$(echo {} | cut -c1-3 | tr a-z A-Z); /verif/tools/seed_recheck.sh $P {} >/dev/null 2>&1; echo {} done'
+ls -d /verif/seeded/c*-* | xargs -n1 basename | sort -t- -k2,2n -k1,1 | xargs -P $J -I{} sh -c 'P=$(echo {} | cut -c1-3 | tr a-z A-Z); /verif/tools/seed_recheck.sh $P {} >/dev/null 2>&1; echo {} done'
+git -C /verif checkout -- lean/MitmVerif/Gen 2>/dev/null
